@@ -30,30 +30,6 @@ theorem consumed_is_percent_of_need (i : Inp K) (x : Var → K) (h : Feasible (b
         / i.billionKcalsNeeded * 100 := by
   rw [kcals_fed h hm, eval_humanSum]
 
-/-- the two running totals of `totalNonhuman`, evaluated -/
-theorem eval_totalNonhuman_fold (i : Inp K) (x : Var → K) (l : List Nat) (a b : Aff K) :
-    Aff.eval x (l.foldl (fun acc m => (acc.1 + feedSum i m, acc.2 + biofuelSum i m)) (a, b)).1 =
-      l.foldl (fun acc m => acc + feedTotal i x m) (Aff.eval x a) ∧
-    Aff.eval x (l.foldl (fun acc m => (acc.1 + feedSum i m, acc.2 + biofuelSum i m)) (a, b)).2 =
-      l.foldl (fun acc m => acc + biofuelTotal i x m) (Aff.eval x b) := by
-  induction l generalizing a b with
-  | nil => exact ⟨rfl, rfl⟩
-  | cons m t ih =>
-    simp only [List.foldl_cons]
-    have := ih (a + feedSum i m) (b + biofuelSum i m)
-    rw [eval_add, eval_add, eval_feedSum, eval_biofuelSum] at this
-    exact this
-
-theorem eval_nonhumanObjective (i : Inp K) (x : Var → K) :
-    Aff.eval x (nonhumanObjective i) =
-      2 / 3 * (List.range i.nmonths).foldl (fun acc m => acc + feedTotal i x m) 0
-        + (List.range i.nmonths).foldl (fun acc m => acc + biofuelTotal i x m) 0 / 3 := by
-  unfold nonhumanObjective totalNonhuman
-  obtain ⟨h1, h2⟩ := eval_totalNonhuman_fold i x (List.range i.nmonths) (Aff.k 0) (Aff.k 0)
-  rw [eval_k] at h1 h2
-  simp only [eval_add, eval_smul, eval_divr, h1, h2]
-  norm_num
-
 theorem objective_le_weighted_total (i : Inp K) (x : Var → K)
     (h : Feasible (buildLP i .toAnimals) x) :
     x .objective ≤ 2 / 3 * (List.range i.nmonths).foldl (fun acc m => acc + feedTotal i x m) 0
